@@ -70,10 +70,10 @@ P = {
 # as-built additions (rounds 8-15 of seeded changes; DESIGN.md section 8)
 ADD = {
  "C01": " Plus, per table: explicit sweep programs (every size of every variable-size entry over a contiguous range, continuation / identical / overlapping / descending argument chains, strings with blank / NUL heads and tails, foreign handles, setters overwritten with other values), a byte-sum sweep (one argument per entry kind through all 256 low-byte values), every argument all-zero / all-ones beside ordinary neighbours, the value sweep (every numeric or byte-array argument of every entry kind, shape and constructor through util::value_set x the enumerated arguments; argument pairs equal / adjacent / doubled and over a 12-value special set; argument = entry position / table length / entry size / previous argument +-1; one special value in three entries), and a second DFS over one operation per kind to depth 4..16.",
- "C02": " The sweep programs (incl. RQSC vendor identifier blobs of every length 0..40, also shorter than the 12 bytes of the fixed identifier fields), byte-sum sweep, value sweep and kind-level DFS of C01 are judged here too.",
+ "C02": " The sweep programs (incl. RQSC vendor identifier blobs of every length 0..40, also shorter than the 12 bytes of the fixed identifier fields) and single HMAT structures of 65 532 .. 180 000 bytes, byte-sum sweep, value sweep and kind-level DFS of C01 are judged here too.",
  "C03": " The sweep programs, byte-sum sweep, value sweep and kind-level DFS of C01 are judged here too.",
  "C04": " The entry layer also uses all-arguments-equal, lower-case-letter and blank fills; the stand-alone structures (PCI-config GAS, typed GenericAddress, HEST error status block and data entry) are compared with their specification layouts; the sweep programs and the value sweep of C01 are judged here too.",
- "C05": " The sweep programs of C01 (sizes, strings, overwritten next_level, foreign parent) and its value sweep are judged here too.",
+ "C05": " The sweep programs of C01 (sizes, strings, overwritten next_level, foreign parent), its value sweep, and programs that grow the table past 64 KiB and then add a node and references to that very node (RIMT, RHCT, PPTT) are judged here too.",
  "C06": " Plus every sequence of <=3 (thorough 4) field entries over named/reserved x 8 widths, long runs of one width up to 2^28-1 bits x 1..40 / 255..257 / 4095..4097 entries, and resource templates whose last / first / only descriptor ends in every byte pair.",
  "C07": " Plus every call site with every name form (1, 2, 3, 10 segments, rooted or not) and a directly-written 64-bit child, every container with 0..=300 and up to 65 537 small children, every container with a child whose last two / first two bytes run over all 65 536 pairs, and the field-entry sequences and long runs of C06.",
  "C08": " Plus every combination of {00,01,80,ff} over the 8 bytes, every (high, low) dword pair over 22 values, ResourceTemplate children of every total size 0..70000, and an integer of every width at every offset (0..250 one-byte children, or one child of 0..300 / ~4096 / ~65536 bytes in front) inside every container.",
